@@ -73,6 +73,10 @@ func genGraph(rng *rand.Rand, o graphOpts) LifeSpec {
 				p.RunMs = []int{rng.Intn(8)}
 			}
 		}
+		if o.ExitOn && rng.Intn(8) == 0 && len(p.RunMs) > 0 && p.RunMs[0] < 0 {
+			// stopped through a shutdown command, which may fail at once
+			p.StopCmd = []string{"exit 1", "true", "exit 7"}[rng.Intn(3)]
+		}
 		if o.ExitOn {
 			switch rng.Intn(9) {
 			case 0:
@@ -150,6 +154,28 @@ func genGraph(rng *rand.Rand, o graphOpts) LifeSpec {
 	return spec
 }
 
+// genStaleDepCase: the dependency succeeds on its first run, is started again
+// by hand and fails; the dependent is started while that second instance runs.
+func genStaleDepCase(rng *rand.Rand) LifeSpec {
+	cond := []string{types.ProcessConditionCompletedSuccessfully, types.ProcessConditionCompleted}[rng.Intn(2)]
+	spec := LifeSpec{BackoffUnitMs: 20}
+	spec.Procs = []PSpec{
+		{Name: "d0", Exits: []int{0, 1 + rng.Intn(3)}, RunMs: []int{1 + rng.Intn(3), -1}},
+		{Name: "x0", RunMs: []int{1 + rng.Intn(3)}, Deps: []Dep{{On: "d0", Cond: cond}}},
+		{Name: "by", RunMs: []int{-1}},
+	}
+	spec.Ops = []Op{
+		{When: "exit:x0:1", Op: "start", Proc: "d0"},
+		{When: "launch:d0:2", Op: "start", Proc: "x0"},
+		{When: "now", Op: "sleep", N: 5 + rng.Intn(15)},
+		{When: "now", Op: "release", Proc: "d0"},
+		{When: "exit:d0:2", Op: "sleep", N: 10},
+	}
+	spec.EndWithShutdown = true
+	spec.SilenceMs = 4000
+	return spec
+}
+
 func lifeSample(lr *LifeRun) any {
 	f := sim.FormatEvents(lr.Events)
 	if len(f) > 60 {
@@ -187,6 +213,9 @@ func runGraphCase(c fw.Case, oracles func(lr *LifeRun, ix *lifeIndex, r *fw.Resu
 		r.Count("stalled_with_live_command", 1)
 	}
 	oracles(lr, ix, &r)
+	for _, b := range lr.Blocked {
+		r.Add("C19", "client-call-never-returned", "the client call %s did not return within 25 s (the server answers such requests within milliseconds in this scenario)", b)
+	}
 	r.NonTrivial = nontrivial(lr, ix)
 	r.Sig = sim.Signature(lr.Events, sigKinds...)
 	if len(r.Findings) > 0 {
@@ -232,6 +261,10 @@ func init() {
 				s := fw.SubSeed(seed, i)
 				rng := fw.Rand(s)
 				spec := genGraph(rng, graphOpts{MaxN: 8, Probes: i%40 == 0, Restarts: true, ApiOps: i%3 == 0})
+				if i%40 == 7 {
+					cs = append(cs, fw.MkCase("C01", "stale-dependency-instance", s, genStaleDepCase(rng)))
+					continue
+				}
 				cs = append(cs, fw.MkCase("C01", "graph", s, spec))
 			}
 			return cs
@@ -253,7 +286,44 @@ func init() {
 				s := fw.SubSeed(seed, i)
 				rng := fw.Rand(s)
 				spec := genGraph(rng, graphOpts{MaxN: 7, Probes: i%48 == 0, ExitOn: true, FailHeavy: i%2 == 0, Restarts: i%3 == 0})
+				if i%6 == 5 {
+					// the user stops a process (preferably one carrying exit_on_*)
+					// while it is still waiting for its dependencies
+					t := spec.Procs[rng.Intn(len(spec.Procs))].Name
+					for _, p := range spec.Procs {
+						if len(p.Deps) > 0 && (p.ExitOnSkipped || p.ExitOnEnd) && rng.Intn(2) == 0 {
+							t = p.Name
+						}
+					}
+					spec.Ops = append(spec.Ops, Op{When: "instance:" + t, Op: "stop", Proc: t})
+				}
 				cs = append(cs, fw.MkCase("C04", "graph-exit", s, spec))
+			}
+			// a process carrying exit_on_* is stopped by the user between its
+			// entry check and a validation / start that will fail
+			for i := 0; i < tierN(tier, 64, 1000); i++ {
+				s := fw.SubSeed(seed, 9500000+i)
+				rng := fw.Rand(s)
+				t := PSpec{Name: "t", RunMs: []int{-1}, Exits: []int{3}}
+				point := "run.afterTermCheck"
+				if i%2 == 0 {
+					t.BadDir = true
+				} else {
+					t.StartErr, point = []int{0}, "run.beforeLaunch"
+				}
+				switch i % 3 {
+				case 0:
+					t.Restart = "exit_on_failure"
+				case 1:
+					t.ExitOnEnd = true
+				default:
+					t.Restart, t.ExitOnEnd = "exit_on_failure", true
+				}
+				spec := LifeSpec{BackoffUnitMs: 20, EndWithShutdown: true, SilenceMs: 4000,
+					Procs: []PSpec{t, {Name: "by", RunMs: []int{-1}, Sig: &sim.SigSpec{Ms: rng.Intn(5)}}},
+					Holds: []sim.Hold{{Point: point, Name: "t", Nth: 1, MaxMs: 150, Tag: "h"}},
+					Ops:   []Op{{When: "hold:h", Op: "stop", Proc: "t", Release: []string{"h"}}, {When: "now", Op: "sleep", N: 10 + rng.Intn(20)}}}
+				cs = append(cs, fw.MkCase("C04", "stopped-then-fails", s, spec))
 			}
 			// an exit_on_* trigger fires while Run() is still inside its start-up
 			// loop (held at the yield point), the processes launched so far are
@@ -310,6 +380,10 @@ func init() {
 					t := spec.Procs[rng.Intn(len(spec.Procs))].Name
 					when := []string{"launch:" + t, "instance:" + t}[rng.Intn(2)]
 					spec.Ops = append(spec.Ops, Op{When: when, Op: "stop", Proc: t})
+				}
+				if i%40 == 9 {
+					cs = append(cs, fw.MkCase("C05", "stale-dependency-instance", s, genStaleDepCase(rng)))
+					continue
 				}
 				cs = append(cs, fw.MkCase("C05", "graph-fail", s, spec))
 			}
